@@ -111,6 +111,42 @@ def step_rule(chk, lib, fn, s, classes_with_end):
     return n
 
 
+def ref_rule(chk, lib, fn, s):
+    """R-CHK.ref: an operation that hands out a reference to an element of the buffer (operator[], front, back, *it on
+    arrays) lets the caller read or write those bytes: [addr, addr + sizeof) of the returned lvalue must be covered by
+    the operation's asserted checks like an access of its own"""
+    n = 0
+    if fn.get("cls_tpl") == "sbepp::detail::static_array_ref" and fn["name"] in ("front", "back") \
+            and len(fn.get("cls_targs") or []) > 2 and str(fn["cls_targs"][2]).lstrip("#") == "0":
+        # zero-length arrays (the `varData` element of a data header): front()/back() have no element to refer to,
+        # as for std::array<T, 0>; calling them is not a "call with valid arguments"
+        return 0
+    for p in s.live:
+        r = p.ret
+        if not isinstance(r, MemLoc) or not isinstance(r.addr, Lin):
+            continue
+        if not (has_view_sym(r.addr)):
+            continue
+        n += 1
+        p._arg_facts = arg_facts(fn)
+        ev = ("ref", r.addr, lin(r.size if r.size is not None else 1))
+        p.events.append(ev)
+        try:
+            okc, why = access_covered(p, len(p.events) - 1)
+        finally:
+            p.events.pop()
+            if hasattr(p, "_facts"):
+                del p._facts
+        key = "%s|ref" % rint.fn_name(fn)
+        if okc:
+            chk.ok("R-CHK.ref", key + "|" + show(r.addr)[:60], {"function": fn["qn"][:140], "lvalue": [show(r.addr), show(ev[2])], "covered": why}, nontrivial=True)
+        else:
+            chk.violation("R-CHK.ref", key, where(fn),
+                          "%s [%s] returns a reference to [%s, +%s) which no asserted check of the operation covers: %s"
+                          % (fn["qn"][:200], lib.label, show(r.addr), show(ev[2]), why[:300]))
+    return n
+
+
 def check(chk, lib, gen_root, per_shape=2, max_paths=200, skip_visit=True):
     classes_with_end = set()
     for r in lib.facts.get("records", []):
@@ -143,6 +179,7 @@ def check(chk, lib, gen_root, per_shape=2, max_paths=200, skip_visit=True):
                 continue
             n_fn += 1
             n_step += step_rule(chk, lib, fn, s, classes_with_end)
+            n_acc += ref_rule(chk, lib, fn, s)
             af = arg_facts(fn)
             for p in s.paths:
                 p._arg_facts = af
